@@ -106,7 +106,7 @@ Concrete(w) ==
 (* ---- state ---- *)
 VARIABLES world,     \* abstract world (as serialised for the harness)
           reps,      \* its concrete replica series
-          cfg,       \* [dedup, rls, strip, lo, hi, scope]
+          cfg,       \* [dedup, rls, strip, lo, hi, scope, frame]
           stage,     \* "stores" | "proxy" | "split" | "iter" | "dedup" | "done"
           streams,   \* store -> sequence of [lbls, chunks (set)]   what each store sent
           series,    \* sequence of [lbls, chunks (sequence)]       proxy output, then overlap-split output
@@ -120,16 +120,19 @@ WholeRange == [lo |-> 0, hi |-> 100000000]
 SubRange(w, n) == [lo |-> 2 * w.step, hi |-> (n - 1) * w.step + 300]
 
 Cfgs(w, cls) ==
-    CASE cls = "A" -> { [dedup |-> d, rls |-> {"r", "s"}, strip |-> [s \in Stores |-> s = 1], lo |-> rg.lo, hi |-> rg.hi, scope |-> Stores]
-                        : d \in BOOLEAN, rg \in {WholeRange, SubRange(w, N)} }
-      [] cls = "A3" -> { [dedup |-> TRUE, rls |-> {"r", "s"}, strip |-> [s \in Stores |-> TRUE], lo |-> rg.lo, hi |-> rg.hi, scope |-> Stores]
+    CASE cls = "A" -> { c \in
+                      { [dedup |-> d, rls |-> {"r", "s"}, strip |-> [s \in Stores |-> s = 1], lo |-> rg.lo, hi |-> rg.hi,
+                         scope |-> Stores, frame |-> f]
+                        : d \in BOOLEAN, rg \in {WholeRange, SubRange(w, N)}, f \in {0, 1} }
+                      : c.frame = 0 \/ c.lo = WholeRange.lo }      \* one chunk per frame: whole range only
+      [] cls = "A3" -> { [dedup |-> TRUE, rls |-> {"r", "s"}, strip |-> [s \in Stores |-> TRUE], lo |-> rg.lo, hi |-> rg.hi, scope |-> Stores, frame |-> 0]
                         : rg \in {WholeRange, SubRange(w, N3)} }
       [] cls = "B" -> { c \in
-                      { [dedup |-> d, rls |-> rl, strip |-> sp, lo |-> WholeRange.lo, hi |-> WholeRange.hi, scope |-> sc]
+                      { [dedup |-> d, rls |-> rl, strip |-> sp, lo |-> WholeRange.lo, hi |-> WholeRange.hi, scope |-> sc, frame |-> 1]
                         : d \in BOOLEAN, rl \in {{"r", "s"}, {"r"}}, sp \in [Stores -> BOOLEAN],
                           sc \in {{1, 2}, {1}, {2}} }
                       : c.scope = Stores \/ (c.strip[1] /\ c.strip[2]) }    \* store scope varied with stripping stores only
-      [] cls = "C" -> { [dedup |-> d, rls |-> {"r", "s"}, strip |-> [s \in Stores |-> TRUE], lo |-> rg.lo, hi |-> rg.hi, scope |-> Stores]
+      [] cls = "C" -> { [dedup |-> d, rls |-> {"r", "s"}, strip |-> [s \in Stores |-> TRUE], lo |-> rg.lo, hi |-> rg.hi, scope |-> Stores, frame |-> 0]
                         : d \in BOOLEAN, rg \in {WholeRange, SubRange(w, NC)} }
 
 Init ==
@@ -142,13 +145,24 @@ Init ==
     /\ series = <<>> /\ iters = <<>> /\ out = <<>>
 
 (* ---- stage 1: every store answers Series(lo, hi, WithoutReplicaLabels) ---- *)
-SeriesLess(x, y) == LsetLess(x.lbls, y.lbls) \/ (x.lbls = y.lbls /\ x.id < y.id)
+(* A store streams a series as >= 1 consecutive FRAMES with the same labels: cfg.frame = 0 puts  *)
+(* all chunks of the series in one frame, f > 0 at most f chunks per frame (TSDBStore cuts by    *)
+(* bytes, the bucket store by chunk count).  k = position of the frame within its series.        *)
+SeriesLess(x, y) == \/ LsetLess(x.lbls, y.lbls)
+                    \/ (x.lbls = y.lbls /\ x.id < y.id)
+                    \/ (x.lbls = y.lbls /\ x.id = y.id /\ x.k < y.k)
+Frames(x) ==
+    LET cs == SetToSortSeq(x.chunks, ChunkLess)
+        f == IF cfg.frame = 0 THEN Len(cs) ELSE cfg.frame
+        nf == (Len(cs) + f - 1) \div f
+    IN { [lbls |-> x.lbls, id |-> x.id, k |-> k,
+          chunks |-> { cs[i] : i \in { i \in DOMAIN cs : (k - 1) * f < i /\ i <= k * f } }] : k \in 1..nf }
 StoreAnswer(s) ==
     LET strips == cfg.dedup /\ cfg.strip[s]
         mine == { [lbls |-> IF strips THEN Strip(r.lbls, RL) ELSE r.lbls, id |-> r.id,
                    chunks |-> { ch \in { ChunkOf(r, r.chunks[k], r.id) : k \in { k \in DOMAIN r.chunks : r.chunks[k].st = s } }
                                 : ChunkOverlaps(ch, cfg.lo, cfg.hi) }] : r \in reps }
-    IN SetToSortSeq({ x \in mine : x.chunks # {} }, SeriesLess)
+    IN SetToSortSeq(UNION { Frames(x) : x \in { y \in mine : y.chunks # {} } }, SeriesLess)
 StoresAnswer ==
     /\ stage = "stores"
     /\ streams' = [s \in Stores |-> IF s \in cfg.scope THEN StoreAnswer(s) ELSE <<>>]   \* only selected, healthy stores answer
@@ -224,6 +238,14 @@ KnownFindingLset(l) ==
 ProxySortedUnique ==
     stage \in {"split"} \/ (stage = "iter" /\ ~(cfg.dedup /\ cfg.rls # {})) =>
         \A i \in 1..(Len(series) - 1) : LsetLess(series[i].lbls, series[i + 1].lbls)
+(* intermediate: "however the data is cut into ... frames": what the proxy hands on for a label *)
+(* set holds every distinct chunk of every frame any store sent for it                          *)
+FramesRejoined ==
+    stage \in {"split"} \/ (stage = "iter" /\ ~(cfg.dedup /\ cfg.rls # {})) =>
+        \A i \in DOMAIN series :
+            LET sent == UNION { UNION { streams[s][j].chunks : j \in { j \in DOMAIN streams[s] :
+                                            Strip(streams[s][j].lbls, RL) = series[i].lbls } } : s \in Stores }
+            IN { c.samples : c \in RangeOf(series[i].chunks) } = { c.samples : c \in sent }
 (* intermediate: after the split every chain is free of overlaps *)
 ChainsDisjoint ==
     stage \in {"iter", "dedup", "done"} /\ cfg.dedup /\ cfg.rls # {} =>
